@@ -145,13 +145,18 @@ structure Entry (M : Type) where
   deser : Bytes → Except Err M
   isProto : Bool
 
-/-- `client.resolveSerializer(message)` for a non-nil message: ONE pass in registration order,
-    first entry whose type test passes (index) -/
-def resolveFrom {M} : List (Entry M) → M → Nat → Option Nat
-  | [], _, _ => none
-  | e :: es, m, i => if e.accepts m then some i else resolveFrom es m (i + 1)
+/-- `client.resolveSerializer(message)` for a non-nil message (after fix C25-F1): one loop that returns an
+    exact-type entry as soon as it meets one and otherwise remembers the FIRST interface entry the message
+    implements — the dispatch order documented on `WithClientSerializers` -/
+def resolveFrom {M} : List (Entry M) → M → Nat → Option Nat → Option Nat
+  | [], _, _, firstIface => firstIface
+  | e :: es, m, i, firstIface =>
+    if e.accepts m then
+      if e.exact then some i
+      else resolveFrom es m (i + 1) (match firstIface with | some j => some j | none => some i)
+    else resolveFrom es m (i + 1) firstIface
 
-def resolve {M} (es : List (Entry M)) (m : M) : Option Nat := resolveFrom es m 0
+def resolve {M} (es : List (Entry M)) (m : M) : Option Nat := resolveFrom es m 0 none
 
 /-- the send path (`RemoteTell/RemoteAsk/…`): `resolveSerializer`, nil → "no serializer found", else `Serialize` -/
 def sendSerialize {M} (es : List (Entry M)) (m : M) : Except Err Bytes :=
